@@ -41,7 +41,13 @@ def explore(pid, cases, rep, nontrivial, extra_checks=()):
         dist[f"{t.get('topo')}/{d['routing']['route_algo']}/{'nw' if d['network_type'] != 'axi' else 'axi'}"] += 1
         if not r["ok"]:
             stats["rejected"] += 1
+            if t.get("expect") == "reject":
+                stats["rejected_as_expected"] += 1
             continue
+        if t.get("expect") == "reject":
+            rep.fail(f"{pid}:accepted-invalid:{t.get('defect')}",
+                     f"a description with defect '{t.get('defect')}' ({t}) was accepted and files were rendered",
+                     {"desc": d, "tags": t}, observed="accepted", expected="rejected")
         if "nl" not in r:
             stats["reader_error"] += 1
             rep.corr_broken(f"the emitted files of an accepted description cannot be read back: {r.get('reader_error')}",
@@ -91,6 +97,7 @@ def standard_run(pid, tier, seed, rep, replay, algos, nontrivial, rule, extra_ca
         "samples": samples,
         "input_distribution": dict(dist),
         "accepted": stats["accepted"], "rejected": stats["rejected"], "reader_errors": stats["reader_error"],
+        "rejected_as_expected": stats["rejected_as_expected"],
         "exhaustive": False,
     })
     return stats
